@@ -1,6 +1,6 @@
 #!/bin/bash
 # merge_lean.sh <agent-dir>: 3-way merge an agent's scratch copy of the lake project into /verif/lean (base = /tmp/lean-base)
-A=$1; B=/tmp/lean-base; C=/verif/lean
+A=$1; B=${2:-/tmp/lean-base}; C=/verif/lean
 cd $A
 find . -name '*.lean' -not -path './.lake/*' -o -name 'lakefile.toml' -not -path './.lake/*' | while read f; do
   f=${f#./}
